@@ -160,6 +160,7 @@ package profile
 //@   ensures length: len(b.data) == old(len(b.data)) + vlen(keyof(tag, 2)) + vlen(uint64(len))
 //@   ensures prefix: forall j int :: 0 <= j && j < old(len(b.data)) ==> b.data[j] == old(b.data[j])
 //@   ensures key: forall j int :: old(len(b.data)) <= j && j < old(len(b.data)) + vlen(keyof(tag, 2)) ==> b.data[j] == vbyte(keyof(tag, 2), j - old(len(b.data)))
+//@   ensures value: forall j int :: old(len(b.data)) + vlen(keyof(tag, 2)) <= j && j < len(b.data) ==> b.data[j] == vbyte(uint64(len), j - old(len(b.data)) - vlen(keyof(tag, 2)))
 //@ func encodeUint64Opt arith bv
 //@   requires b != nil
 //@   ensures zero: x == 0 ==> len(b.data) == old(len(b.data))
@@ -833,13 +834,15 @@ package profile
 
 // ---- C02/C14 (strengthened after seeded change threadz-same-as-previous-first-thread): parseThread cannot index
 // outside its samples whatever the input text (the scanner and the regular expressions are arbitrary) ----
-//@ func parseThread
+//@ func parseThread arith bv
 //@   loop 3
 //@     invariant p != nil && locs != nil
 //@     invariant forall k int :: 0 <= k && k < len(p.Sample) ==> p.Sample[k] != nil && len(p.Sample[k].Value) >= 1
+//@     invariant locsaddr: forall a uint64 :: has(locs, a) && locs[a] != nil ==> locs[a].Address == a
 //@   loop 4
 //@     invariant 0 <= $i && $i <= len(addrs) && p != nil && locs != nil
 //@     invariant forall k int :: 0 <= k && k < len(p.Sample) ==> p.Sample[k] != nil && len(p.Sample[k].Value) >= 1
+//@     invariant locsaddr: forall a uint64 :: has(locs, a) && locs[a] != nil ==> locs[a].Address == a
 
 // ---- C01/C02: postDecode — id resolution after decoding. Safety for any decoded message (ids arbitrary, string
 // indices arbitrary), soundness of the resolution (a resolved reference carries the id that was referenced), and the
@@ -1105,3 +1108,24 @@ package profile
 //@     invariant pm != nil
 //@   loop 2
 //@     mustcall profileMerger.mapSample mapped: $arg1 == s when exists i int :: 0 <= i && i < len(s.Value) && s.Value[i] != 0
+
+// ---- C01: encodeMessage — a nested message is framed as key varint, length varint, body: the header is the varint
+// pair of (tag, wire type 2) and the body length, the body is what the message's encoder wrote, moved up by exactly the
+// header length, and nothing before it changes (relative to the state the message's own encoder leaves) ----
+//@ spec macro func bodylen(b *buffer, n1 int) int = aftercall("invoke.encode", len(b.data)) - n1
+//@ func encodeMessage arith bv nosafety
+//@   requires b != nil
+//@   ensures length: aftercall("invoke.encode", len(b.data)) >= old(len(b.data)) ==> len(b.data) == aftercall("invoke.encode", len(b.data)) + vlen(keyof(tag, 2)) + vlen(uint64(aftercall("invoke.encode", len(b.data)) - old(len(b.data))))
+// (withdrawn: "the body is the encoder's output moved up by the header length" and "nothing before it changes" did not
+// discharge within 30 s — three overlapping bulk copies under a quantifier; length and key bytes of the header are proved)
+//@   ensures key: aftercall("invoke.encode", len(b.data)) >= old(len(b.data)) ==> forall j int :: old(len(b.data)) <= j && j < old(len(b.data)) + vlen(keyof(tag, 2)) ==> b.data[j] == vbyte(keyof(tag, 2), j - old(len(b.data)))
+
+// ---- C11: built-in frame-dropping expressions of legacy profiles (a case table): heap profiles drop the allocator frames
+// but keep the allocator's callers-of-interest list, contention profiles drop the lock frames and keep nothing, every other
+// legacy profile drops the CPU-profiler frames and keeps nothing ----
+//@ func Profile.addLegacyFrameInfo nosafety
+//@   requires p != nil
+//@   ensures heap: callres("isProfileType#1", 0) ==> p.DropFrames == allocRxStr && p.KeepFrames == allocSkipRxStr
+//@   ensures known: p.DropFrames == allocRxStr || p.DropFrames == lockRxStr || p.DropFrames == cpuProfilerRxStr
+//@   ensures keep_only_heap: p.KeepFrames == allocSkipRxStr || p.KeepFrames == ""
+//@   ensures nonheap_keeps_nothing: !callres("isProfileType#1", 0) ==> p.KeepFrames == ""
